@@ -2,135 +2,4 @@
 
 package ws
 
-import (
-	"net/url"
-
-	"github.com/gobwas/httphead"
-)
-
 func vArb(name string, n int) []byte { return vBytes(name, n) } // unconstrained bytes: CR, LF, NUL, 0x80+ allowed
-
-// C15_header_values: the token/option selection helpers on arbitrary header values.
-func C15_header_values() {
-	n := vChoose("n", 4+vTier())
-	v := vArb("v", n)
-	switch vChoose("fn", 5) {
-	case 0:
-		btsSelectProtocol(v, func(p []byte) bool { return len(p) == 1 })
-	case 1:
-		btsSelectExtensions(v, nil, func(o httphead.Option) bool { return len(o.Name) == 1 })
-	case 2:
-		negotiateExtensions(v, nil, func(o httphead.Option) (httphead.Option, error) { return o, nil })
-	case 3:
-		matchSelectedExtensions(v, []httphead.Option{httphead.NewOption("a", nil)}, nil)
-	case 4:
-		btsHasToken(v, []byte("upgrade"))
-		strSelectProtocol(string(v), func(s string) bool { return s == "a" })
-	}
-	vAssert(true, "values.returned")
-}
-
-// C15_header_values_long: longer values over a small alphabet of the lexer's special characters.
-func C15_header_values_long() {
-	alpha := []byte{'a', ',', ';', '=', '"', '\\', ' ', 0x01}
-	n := 5 + vTier()
-	v := make([]byte, n)
-	for i := range v {
-		v[i] = alpha[vChoose("c", len(alpha))]
-	}
-	switch vChoose("fn", 3) {
-	case 0:
-		btsSelectProtocol(v, func(p []byte) bool { return false })
-	case 1:
-		negotiateExtensions(v, nil, func(o httphead.Option) (httphead.Option, error) { return o, nil })
-	case 2:
-		matchSelectedExtensions(v, []httphead.Option{httphead.NewOption("a", nil)}, nil)
-	}
-	vAssert(true, "values.returned")
-}
-
-// C15_request_bytes: arbitrary bytes in every part of an upgrade request.
-func C15_request_bytes() {
-	hole := vArb("h", 3+2*vTier())
-	var req []byte
-	switch vChoose("where", 6) {
-	case 0: // the whole request line
-		req = append(append([]byte{}, hole...), "\r\nHost: h\r\n\r\n"...)
-	case 1: // inside the request line
-		req = append(append([]byte("GET /"), hole...), " HTTP/1.1\r\nHost: h\r\n\r\n"...)
-	case 2: // version token
-		req = append(append([]byte("GET / HTTP/"), hole...), "\r\nHost: h\r\n\r\n"...)
-	case 3: // header name
-		req = append(append([]byte("GET / HTTP/1.1\r\n"), hole...), ": v\r\nHost: h\r\n\r\n"...)
-	case 4: // Connection / protocol / extensions values
-		which := []string{"Connection: ", "Sec-WebSocket-Protocol: ", "Sec-WebSocket-Extensions: ", "Sec-WebSocket-Key: ", "Upgrade: "}[vChoose("hdr", 5)]
-		req = append(append([]byte("GET / HTTP/1.1\r\nHost: h\r\nUpgrade: websocket\r\n"+which), hole...), "\r\nSec-WebSocket-Version: 13\r\nSec-WebSocket-Key: dGhlIHNhbXBsZSBub25jZQ==\r\nConnection: Upgrade\r\n\r\n"...)
-	case 5: // truncated anywhere
-		full := []byte("GET / HTTP/1.1\r\nHost: h\r\nUpgrade: websocket\r\nConnection: Upgrade\r\nSec-WebSocket-Version: 13\r\nSec-WebSocket-Key: dGhlIHNhbXBsZSBub25jZQ==\r\n\r\n")
-		req = full[:vChoose("cut", len(full))]
-	}
-	u := Upgrader{
-		Protocol:  func(p []byte) bool { return len(p) == 1 },
-		Negotiate: func(o httphead.Option) (httphead.Option, error) { return o, nil },
-	}
-	env := vChoose("env", 4) // one variation at a time
-	if env == 1 {
-		u.Negotiate = nil
-		u.Extension = func(o httphead.Option) bool { return true }
-	}
-	conn := &vConn{in: req, one: env == 2}
-	if env == 3 {
-		u.ReadBufferSize = 16
-	}
-	_, err := u.Upgrade(conn)
-	if len(req) < 20 {
-		vAssert(err != nil, "request.garbage_is_error")
-	}
-	vAssert(true, "request.returned")
-}
-
-// C15_response_bytes: arbitrary bytes in every part of an upgrade response.
-func C15_response_bytes() {
-	vRandConcrete(true)
-	hole := vArb("h", 3+2*vTier())
-	srv := &vServer{}
-	where := vChoose("where", 5)
-	which := 0
-	if where == 2 {
-		which = vChoose("hdr", 4)
-	}
-	cut := 0
-	if where == 4 {
-		cut = vChoose("cut", 40)
-	}
-
-	srv.resp = func(key []byte) []byte {
-		ok := "HTTP/1.1 101 Switching Protocols\r\nUpgrade: websocket\r\nConnection: Upgrade\r\nSec-WebSocket-Accept: " + string(vAccept(key)) + "\r\n"
-		switch where {
-		case 0:
-			return append(append([]byte{}, hole...), "\r\n\r\n"...)
-		case 1:
-			return append(append([]byte("HTTP/1.1 "), hole...), " x\r\n\r\n"...)
-		case 2:
-			h := []string{"Sec-WebSocket-Protocol: ", "Sec-WebSocket-Extensions: ", "Sec-WebSocket-Accept: ", ""}[which]
-			return append(append([]byte(ok+h), hole...), "\r\n\r\n"...)
-		case 3:
-			return append(append([]byte("HTTP/"), hole...), " 101 x\r\n\r\n"...)
-		}
-		b := []byte(ok + "\r\n")
-		if cut < len(b) {
-			b = b[:len(b)-cut]
-		}
-		return b
-	}
-	d := Dialer{Protocols: []string{"a"}, Extensions: []httphead.Option{httphead.NewOption("a", nil)}}
-	if vChoose("rbuf", 2) == 1 {
-		d.ReadBufferSize = 16
-		srv.chunks = []int{1, 1, 1, 1, 1, 1, 1, 1, 1, 1, 1, 1, 1, 1, 1, 1, 1, 1, 1, 1, 1, 1, 1, 1}
-	}
-	br, _, err := d.Upgrade(srv, &url.URL{Scheme: "ws", Host: "h", Path: "/"})
-	if err != nil {
-		vAssert(br == nil, "response.no_reader_on_error")
-	}
-	vAssert(true, "response.returned")
-}
